@@ -14,7 +14,7 @@ RULE = ("readers R in 1..3 (real threads running the real SharedDictDataset.__ge
         "(cache content, load counters) states, transitions = scheduled shared-dict operations; SchedDict is bound to the real "
         "multiprocessing Manager dict by replaying all operation sequences of depth <= 3 against both")
 
-PAYLOADS = ("int", "tuple", "tensor", "dict", "list")
+PAYLOADS = ("int", "tuple", "tensor", "dict", "list", "falsy")
 TRANSFORMS = ("none", "pure", "inplace")
 
 
@@ -30,6 +30,8 @@ def payload(kind, i):
         return {"a": i, "b": [i, i]}
     if kind == "list":
         return [i, [i + 1]]
+    if kind == "falsy":
+        return None if i == 0 else 0  # whole-sample payloads that are None / falsy (picklable like any other)
     raise ValueError(kind)
 
 
@@ -37,6 +39,8 @@ def apply_expected(tkind, v):
     import torch
     if tkind == "none":
         return v
+    if v is None:
+        return ("was_none",)
     if isinstance(v, int):
         return v + 1000
     if torch.is_tensor(v):
